@@ -12,6 +12,8 @@ open Proto C02
 * `(c <expr>)`    → `1`/`0` : litsCanonical
 * `(r <tok> ...)` → the tree `read liveCfg` returns (grammar + canonicalisation of intrinsic arguments), or `none`
 * `(kn <expr>)`   → `(norm e).bind (canonTree liveCfg)`: what the full reader gives back for the written tree, or `none`
+* `(e2e M <expr>)` → `error` if the writer refuses, else `read liveCfg (render M top e)` (tree or `none`): the model's
+                     end-to-end prediction of what is read back
 * `(m <expr>)`    → `1`/`0` : mmsCanonical liveCfg
 * `(cm <args>)`   → `canonMMS liveCfg` on an argument list: `(ok <args>)` or `(err generation|internal|notImplemented|index)`
 -/
@@ -143,6 +145,12 @@ def handle (s : Sexp) : String :=
     match rdExpr e with
     | some e => (match (norm e).bind (canonTree liveCfg) with | some e' => shExpr e' | none => "none")
     | none => "bad-input"
+  | .list [.atom "e2e", f, e] =>
+    match f.nat? >>= (modes[·]?), rdExpr e with
+    | some m, some e =>
+      if wf .expr e then (match read liveCfg (render m .top e) with | some e' => shExpr e' | none => "none")
+      else "error"
+    | _, _ => "bad-input"
   | .list [.atom "m", e] =>
     match rdExpr e with
     | some e => shBool (mmsCanonical liveCfg e)
